@@ -1,11 +1,17 @@
 use std::collections::BTreeSet;
 // element: an opaque token with the derived total order (ASSUMED: the derived Ord of PlutusData is a total order consistent with ==)
-#[verifier::external_body] pub struct PlutusData { _p: core::marker::PhantomData<u8> }
-impl Clone for PlutusData { #[verifier::external_body] fn clone(&self) -> (r: PlutusData) ensures r == *self { unimplemented!() } }
-impl PartialEq for PlutusData { #[verifier::external_body] fn eq(&self, o: &PlutusData) -> bool { unimplemented!() } }
-impl Eq for PlutusData {}
-impl PartialOrd for PlutusData { #[verifier::external_body] fn partial_cmp(&self, o: &PlutusData) -> Option<core::cmp::Ordering> { unimplemented!() } }
-impl Ord for PlutusData { #[verifier::external_body] fn cmp(&self, o: &PlutusData) -> core::cmp::Ordering { unimplemented!() } }
+macro_rules! ord_token { ($($n:ident),* $(,)?) => { verus!{ $(
+    #[verifier::external_body] pub struct $n { _p: core::marker::PhantomData<u8> }
+    impl Clone for $n { #[verifier::external_body] fn clone(&self) -> (r: $n) ensures r == *self { unimplemented!() } }
+    impl PartialEq for $n { #[verifier::external_body] fn eq(&self, o: &$n) -> bool { unimplemented!() } }
+    impl Eq for $n {}
+    impl PartialOrd for $n { #[verifier::external_body] fn partial_cmp(&self, o: &$n) -> Option<core::cmp::Ordering> { unimplemented!() } }
+    impl Ord for $n { #[verifier::external_body] fn cmp(&self, o: &$n) -> core::cmp::Ordering { unimplemented!() } }
+)* } } }
+ord_token!(PlutusData, NativeScript, PlutusScript);
+/// per-language set tags of a PlutusScripts collection (a HashMap the de-duplication only clones)
+#[verifier::external_body] pub struct LangSetTypes { _p: core::marker::PhantomData<u8> }
+clone_eq!(LangSetTypes);
 pub enum CborSetType { Tagged, Untagged }
 clone_eq!(CborSetType);
 /// first occurrences of the elements, in their original order
@@ -16,7 +22,10 @@ pub proof fn lemma_dedup_step<T>(s: Seq<T>, i: int)
     requires 0 <= i < s.len()
     ensures dedup_seq(s.take(i + 1)) == (if dedup_seq(s.take(i)).contains(s[i]) { dedup_seq(s.take(i)) } else { dedup_seq(s.take(i)).push(s[i]) })
 { assert(s.take(i + 1).drop_last() =~= s.take(i)); }
-pub open spec fn set_ok() -> bool { vstd::laws_cmp::obeys_cmp_spec::<&PlutusData>() }
+pub open spec fn set_ok() -> bool {
+    vstd::laws_cmp::obeys_cmp_spec::<&PlutusData>() && vstd::laws_cmp::obeys_cmp_spec::<&NativeScript>() && vstd::laws_cmp::obeys_cmp_spec::<NativeScript>()
+      && vstd::laws_cmp::obeys_cmp_spec::<PlutusScript>()
+}
 pub proof fn lemma_push_contains<T>(p: Seq<T>, e: T)
     ensures forall|y: T| #[trigger] p.push(e).contains(y) <==> p.contains(y) || y == e
 {
